@@ -12,7 +12,11 @@ SPEC = dict(
     rule='case = one input (exh-*: one byte string over a 14-symbol structural / 8-symbol string-and-linebreak alphabet, all strings up to the length bound; '
          'gen: one grammar-generated valid document with woven-in comments -> stripComments vs reference stripper, parse of the stripped text vs the generator\'s model tree, '
          'every prefix of the text; mut: 1-4 byte/range/splice mutations of a valid or corpus document; deep: 1-1000 nested arrays/objects, balanced, truncated, with line breaks; '
-         'roundtrip: one random Variant tree (null/bool/int/int64 boundary values/strings over all bytes 1..255/lists/insertion-ordered maps); strip-*: one token string). '
+         'roundtrip: one random Variant tree (null/bool/int/int64 boundary values/strings over all bytes 1..255/lists/insertion-ordered maps); strip-*: one token string; '
+         'reuse: a sequence of 2-6 texts (valid with model, mutated, truncated, corpus, token soup, line breaks followed by a syntax error, the previous text again) handed to ONE Json::Parser object). '
+         'Parser objects: in every mode two thirds of the parses that go through the Json::Parser class (parse(const char*) / parse(const String&)) use the case\'s long-lived Parser object, '
+         'which is primed with 0-3 texts chosen by the case index when it is created (so the texts sharing a parser are a function of the case; gen feeds up to ~200 prefixes to one object); '
+         'every parse on an already used Parser is compared with the static Json::parse of the same text: same verdict, identical tree (own structural walker), same error line, column and message. '
          'Every text handed to the library lives in a heap block of exactly len+1 bytes; every call runs under a 5 s CPU budget and a 64 MiB live-heap growth cap (ASan malloc hook); '
          'on failure the reported (line, column) must designate a byte, line end or text end under the parser\'s own line-break convention; every accepted tree inside the statement '
          '(no double, no NUL in strings) is serialised and parsed again and compared structurally (types, order, bytes) and with Variant::operator==. '
@@ -32,11 +36,18 @@ SPEC = dict(
         job('roundtrip', 'h_json', 'roundtrip', cases={Q: 16000, T: 600000}, procs=16),
         job('strip-exh', 'h_json', 'strip-exh', cases=-1, scale={Q: 5, T: 6}, procs=16),
         job('strip-rand', 'h_json', 'strip-rand', cases={Q: 40000, T: 1500000}, procs=16),
+        job('reuse', 'h_json', 'reuse', cases={Q: 30000, T: 1000000}, procs=16),
     ],
     floors={Q: dict(parses=500000, positions_checked=300000, prefix_parses=100000, mutation_parses=30000, roundtrips=20000, rt_string_bytes_compared=200000,
                     valid_documents_compared=2000, value_nodes_compared=10000, strip_calls=300000, strip_with_escape_in_string=10000, strip_with_star_in_block=10000,
-                    deep_parses=64, deep_roundtrips=20, max_nesting_depth=1000, malloc_hook_calls=1000000, **{'set:error_messages': 8, 'set:rt_char_classes': 8, 'set:rt_byte_values': 255}),
+                    deep_parses=64, deep_roundtrips=20, max_nesting_depth=1000, malloc_hook_calls=1000000,
+                    parses_on_reused_parser=300000, reused_parser_crosschecks=300000, reused_parser_positions_compared=200000, reused_parser_nodes_compared=100000,
+                    reused_rejected_after_linebreak_text=150000, reused_parser_parse_cstr=100000, reused_parser_parse_string=100000, reuse_sequences=30000,
+                    reuse_sequences_with_linebreaks_and_rejection=10000, max_texts_on_one_parser=6, **{'set:reuse_transitions': 4, 'set:error_messages': 8, 'set:rt_char_classes': 8, 'set:rt_byte_values': 255}),
             T: dict(parses=25000000, positions_checked=15000000, prefix_parses=3000000, mutation_parses=1000000, roundtrips=600000, rt_string_bytes_compared=5000000,
                     valid_documents_compared=60000, value_nodes_compared=300000, strip_calls=4000000, strip_with_escape_in_string=100000, strip_with_star_in_block=100000,
-                    deep_parses=640, deep_roundtrips=200, max_nesting_depth=1000, malloc_hook_calls=10000000, **{'set:error_messages': 8, 'set:rt_char_classes': 8, 'set:rt_byte_values': 255})},
+                    deep_parses=640, deep_roundtrips=200, max_nesting_depth=1000, malloc_hook_calls=10000000,
+                    parses_on_reused_parser=8000000, reused_parser_crosschecks=8000000, reused_parser_positions_compared=5000000, reused_parser_nodes_compared=3000000,
+                    reused_rejected_after_linebreak_text=4000000, reused_parser_parse_cstr=3000000, reused_parser_parse_string=3000000, reuse_sequences=1000000,
+                    reuse_sequences_with_linebreaks_and_rejection=300000, max_texts_on_one_parser=6, **{'set:reuse_transitions': 4, 'set:error_messages': 8, 'set:rt_char_classes': 8, 'set:rt_byte_values': 255})},
 )
